@@ -597,23 +597,52 @@ def _r4_rebind(ctx, f, m):
         for t, pol in guards(m.stmt):
             if pol and "_ordered" in text(t) and test is None:
                 test = t
-        ttext = text(test).replace(" ", "") if test is not None else ""
-        flag = None
-        for n in f.own_nodes():
-            if isinstance(n, ast.Assign) and isinstance(n.targets[0], ast.Name):
-                v = text(n.value)
-                if "<=" in v or "<" in v:
-                    if n.targets[0].id in ttext:
-                        flag = n
         conj = set()
         if test is not None:
             conj = {(text(t).replace(" ", ""), pol)
                     for t, pol in pat.conjuncts(test)}
         base_txt = text(m.stmt.targets[0].elts[0])[:-7]
-        if flag is not None and conj == {(base_txt + "._ordered", True),
-                                         (flag.targets[0].id, False)}:
+        fl = [t for t, pol in conj if not pol and t.isidentifier()]
+        flag = fl[0] if len(fl) == 1 else None
+        # the flag: True before the rewriting loop, and inside it only ever
+        # and-ed with a `previous <= new` comparison (once False, it stays
+        # False: a descent anywhere in the sequence must reach the re-sort)
+        cumulative = False
+        if flag is not None:
+            asg = [n for n in f.own_nodes()
+                   if (isinstance(n, ast.Assign) and len(n.targets) == 1 and
+                       text(n.targets[0]) == flag) or
+                   (isinstance(n, ast.AugAssign) and text(n.target) == flag)]
+            loops = [lp for lp in f.own_nodes() if isinstance(lp, (ast.For, ast.While))]
+            inits = [n for n in asg if not any(is_within(n, lp) for lp in loops)]
+            upd = [n for n in asg if n not in inits]
+
+            def cum(n):
+                if isinstance(n, ast.AugAssign):
+                    return isinstance(n.op, ast.BitAnd)
+                v = n.value
+                if isinstance(v, ast.Constant) and v.value is False:
+                    return True
+                return isinstance(v, ast.BoolOp) and isinstance(v.op, ast.And) and \
+                    any(isinstance(x, ast.Name) and x.id == flag for x in v.values) and \
+                    any(isinstance(c, ast.Compare) and isinstance(c.ops[0], (ast.LtE, ast.Lt))
+                        for x in v.values for c in ast.walk(x))
+            cumulative = len(inits) == 1 and isinstance(inits[0], ast.Assign) and \
+                text(inits[0].value) == "True" and bool(upd) and all(cum(n) for n in upd)
+        if flag is not None and cumulative and \
+                conj == {(base_txt + "._ordered", True), (flag, False)}:
             ctx.ok("C01.R4", f, m.node, "(d) joint re-sort of the zipped pair "
-                   "under `%s`" % text(test))
+                   "under `%s`; `%s` accumulates `previous <= new` over the "
+                   "whole rewrite" % (text(test), flag))
+        elif flag is not None and not cumulative and \
+                conj == {(base_txt + "._ordered", True), (flag, False)}:
+            ctx.bad("C01.R4", f, m.node, "the flag `%s` that decides whether "
+                    "the rewritten coordinates are re-sorted does not "
+                    "accumulate over the loop (it must start True and only be "
+                    "and-ed with `previous <= new`): a descent in the middle "
+                    "of the sequence followed by an ascending tail skips the "
+                    "re-sort and leaves an ordered fiber unsorted" % flag,
+                    text_="re-sort flag accumulates")
         else:
             ctx.bad("C01.R4", f, m.node, "the joint re-sort after rewriting "
                     "coordinates is not reached whenever the rewrite was "
